@@ -263,7 +263,7 @@ def gen_reads(rng, case, nframes, thorough):
 
     def one_read():
         api = rng.choice(["next", "loop", "iter", "next", "loop"])
-        filt = rng.choice(["none", "empty", "cfg", "ctor", "post"]) if flt else rng.choice(["none", "empty"])
+        filt = rng.choice(["none", "empty", "cfg", "ctor", "post", "clr"]) if flt else rng.choice(["none", "empty"])
         kv = [f"api={api}", f"filt={filt}", f"raw={1 if rng.random() < 0.35 else 0}"]
         if rng.random() < 0.25:
             kv.append("src=fp")
@@ -285,7 +285,7 @@ def gen_reads(rng, case, nframes, thorough):
         if api == "iter" and rng.random() < 0.6:
             kv.append(f"stop={rng.randint(1, max(1, nframes))}")
         line = "read " + " ".join(kv)
-        if filt in ("cfg", "ctor", "post"):
+        if filt in ("cfg", "ctor", "post", "clr"):
             line += " f=" + flt
         return line
 
